@@ -712,6 +712,16 @@ func (c *octx) batchCancel() *eng.Violation {
 					continue
 				}
 				after[ev.Task]++
+				if w := int64(c.sc.Nodes[mb.N].config().WaitMs) * 1e6; !pre && ev.A > 1 && w > 0 {
+					// a retry started after the cancellation is only an "already committed"
+					// execution if its wait had fully elapsed; a task woken from its retry
+					// wait by the cancellation has observed it
+					for _, pe := range bv.evs {
+						if pe.Kind == "exec_end" && pe.I == ev.I && pe.A == ev.A-1 && ev.T-pe.T < w {
+							return c.viol("retry-after-cancel", "batch node %d: item %d was in its retry wait (%dus of %dus elapsed) when the context was cancelled, yet attempt %d was started", mb.N, ev.I-1, (ev.T-pe.T)/1000, w/1000, ev.A)
+						}
+					}
+				}
 				switch {
 				case pre:
 					return c.viol("item-started-after-cancel", "batch node %d: the context was cancelled before the run, yet exec of item %d attempt %d was started", mb.N, ev.I-1, ev.A)
